@@ -1,6 +1,7 @@
 import Mingus.Model.Notes
 import Mingus.Model.Keys
 import Mingus.Model.Intervals
+import Mingus.Model.Scales
 /- Line-protocol dispatch: function name + decoded arguments → observation. -/
 namespace Mingus
 open Val
@@ -58,7 +59,38 @@ def dispatchIntervals : String → List Val → Option Val
       some (toVal (Intervals.invert strs))
   | _, _ => none
 
+def kindOf (name : Str) (semis : List Val) : Option Scales.Kind :=
+  let ints := semis.filterMap (fun v => match v with | int i => some i | _ => Option.none)
+  match String.ofList name with
+  | "Diatonic" => some (.diatonic ints)
+  | "Ionian" => some .ionian | "Dorian" => some .dorian | "Phrygian" => some .phrygian | "Lydian" => some .lydian
+  | "Mixolydian" => some .mixolydian | "Aeolian" => some .aeolian | "Locrian" => some .locrian
+  | "Major" => some .major | "HarmonicMajor" => some .harmonicMajor | "NaturalMinor" => some .naturalMinor
+  | "HarmonicMinor" => some .harmonicMinor | "MelodicMinor" => some .melodicMinor | "Bachian" => some .bachian
+  | "MinorNeapolitan" => some .minorNeapolitan | "Chromatic" => some .chromatic | "WholeTone" => some .wholeTone
+  | "Octatonic" => some .octatonic
+  | _ => Option.none
+
+def strList (l : List Val) : List Str := l.filterMap (fun v => match v with | str x => some x | _ => Option.none)
+
+def dispatchScales : String → List Val → Option Val
+  | "scales.ascending", [str k, str t, int o, list sem] =>
+      (kindOf k sem).map (fun kd => toVal (Scales.ascending ⟨kd, t, o⟩))
+  | "scales.descending", [str k, str t, int o, list sem] =>
+      (kindOf k sem).map (fun kd => toVal (Scales.descending ⟨kd, t, o⟩))
+  | "scales.degree", [str k, str t, int o, list sem, int n, str dir] =>
+      (kindOf k sem).map (fun kd => toVal (Scales.degree ⟨kd, t, o⟩ n dir))
+  | "scales.len", [str k, str t, int o, list sem] =>
+      (kindOf k sem).map (fun kd => toVal (Scales.len ⟨kd, t, o⟩))
+  | "scales.eq", [str k, str t, int o, list sem, str k2, str t2, int o2, list sem2] =>
+      match kindOf k sem, kindOf k2 sem2 with
+      | some a, some b => some (toVal (Scales.eq ⟨a, t, o⟩ ⟨b, t2, o2⟩))
+      | _, _ => Option.none
+  | "scales.determine", [list ns] => some (toVal (Scales.determine (strList ns)))
+  | _, _ => none
+
 def dispatch (fn : String) (args : List Val) : Option Val :=
+  (dispatchScales fn args).orElse fun _ =>
   (dispatchNotes fn args).orElse fun _ =>
   (dispatchKeys fn args).orElse fun _ =>
   dispatchIntervals fn args
